@@ -16,6 +16,7 @@ pub mod c03_sortkey;
 pub mod c18_reduce;
 pub mod c03_conflict;
 pub mod hashmodel;
+pub mod c05_commit;
 
 #[cfg(not(kani))]
 include!(concat!(env!("OUT_DIR"), "/registry.rs"));
